@@ -2,6 +2,7 @@ import IceProofs.NotifierFuture
 import IceProofs.NotifierTrace
 import IceProofs.GatherCycleFuture
 import IceSpec.C11
+import IceTie.Order
 /-!
 # C11 — callbacks are delivered in order, one at a time, exactly once; the nil candidate
 
@@ -305,5 +306,22 @@ example : run init [.gatherCall, .cycleStart 0, .pubCheck 0, .close, .pubRefuse 
 example : (run init [.gatherCall, .cycleStart 0, .pubCheck 0, .close, .pubAbort 0]).map (·.published) = some [] := by decide
 
 end Gather
+
+/-- `Agent.close` (agent.go, regenerated in effect mode): first the task loop (`CloseWithPreStop(abortStartedCandidateIO)`), then
+the THREE notifiers — connection state, candidate, selected pair — each a different one, each exactly once, each with the caller's
+`graceful` -/
+theorem C11_code_close_notifiers (graceful : Bool) :
+    IceGen.agent_close graceful
+      = ([IceTie.Order.c "loop.CloseWithPreStop(abortStartedCandidateIO)",
+          IceTie.Order.c1 "connectionStateNotifier.Close" (IceModel.Val.b graceful),
+          IceTie.Order.c1 "candidateNotifier.Close" (IceModel.Val.b graceful),
+          IceTie.Order.c1 "selectedCandidatePairNotifier.Close" (IceModel.Val.b graceful)], "nil") ∧
+    ((IceGen.agent_close graceful).1.count (IceTie.Order.c1 "connectionStateNotifier.Close" (IceModel.Val.b graceful)) = 1 ∧
+     (IceGen.agent_close graceful).1.count (IceTie.Order.c1 "candidateNotifier.Close" (IceModel.Val.b graceful)) = 1 ∧
+     (IceGen.agent_close graceful).1.count (IceTie.Order.c1 "selectedCandidatePairNotifier.Close" (IceModel.Val.b graceful)) = 1 ∧
+     (IceGen.agent_close graceful).1.head? = some (IceTie.Order.c "loop.CloseWithPreStop(abortStartedCandidateIO)")) :=
+  ⟨IceTie.Order.agentClose_tie graceful, IceTie.Order.agentClose_each_once graceful⟩
+
+example : (IceGen.agent_close true).1.length = 4 := by decide
 
 end IceProps.C11
